@@ -12,15 +12,31 @@ from .hist import Index
 RATIO = 4.5
 
 
-def model(T0: float, K: float, arrivals: list[float], horizon: float, tie: float, obs_pings: list[float] | None = None, obs_close: float | None = None, budget: int = 200000) -> list[tuple[list[float], float | None]]:
+def model(T0: float, K: float, arrivals: list[float], horizon: float, tie: float, obs_pings: list[float] | None = None, obs_close: float | None = None, budget: int = 200000, stalls: list[tuple[float, float]] | None = None) -> list[tuple[list[float], float | None]]:
     """Outcomes (ping times, close time) the statement allows; an arrival tying with a timer may fall on either side.
 
     With observations given, the search is pruned against them and returns [matching outcome] or, if none
     matches, [the outcome of the arrival-first resolution] for the report.
+
+    `stalls`: intervals (s, e] during which the event loop was blocked: a timer due inside one fires at its end (timers that
+    were due earlier first), and is re-armed from the moment it fires; arrivals are given with the time they were processed.
     """
     steps = [0]
     found: list = []
     first_full: list = []
+    stalls = sorted(stalls or [])
+
+    def fire(x: float) -> float:
+        # a timer that becomes due while a callback blocks the loop is collected at the start of the next turn (the end of the
+        # blocked interval); if a blocking callback runs first in that very turn, the timer runs behind it
+        for s0, e0 in stalls:
+            if s0 < x <= e0:
+                x = e0
+                break
+        for s0, e0 in stalls:
+            if abs(s0 - x) <= 1e-12:
+                return e0
+        return x
 
     def consistent(pings: list[float]) -> bool:
         if obs_pings is None:
@@ -50,54 +66,62 @@ def model(T0: float, K: float, arrivals: list[float], horizon: float, tie: float
             if steps[0] > budget or (obs_pings is not None and found):
                 return
             nxt_arr = arrivals[i] if i < len(arrivals) else None
-            cands = [("tick", t_tick)]
+            cands = [("tick", fire(t_tick), t_tick)]
             if nxt_arr is not None:
-                cands.append(("arr", nxt_arr))
+                cands.append(("arr", nxt_arr, nxt_arr))
             if deadline is not None:
-                cands.append(("dead", deadline))
+                cands.append(("dead", fire(deadline), deadline))
             tmin = min(c[1] for c in cands)
             if tmin > horizon:
                 finish(pings, None)
                 return
-            kinds = sorted(c[0] for c in cands if abs(c[1] - tmin) <= tie)
+            now = [c for c in cands if abs(c[1] - tmin) <= tie]
+            # timers that fire in the same instant run in the order they were due (a tie: the deadline first)
+            timers = sorted((c for c in now if c[0] != "arr"), key=lambda c: (c[2], 0 if c[0] == "dead" else 1))
+            kinds = [c[0] for c in now]
             if len(kinds) > 1 and "arr" in kinds:
-                # A: the arrival is processed first (what one event-loop turn does)
-                run(i + 1, t_tick, False, None, list(pings))
-                if obs_pings is not None and found:
-                    return
-                # B: the timer(s) first, then the arrival
-                p_b, d_b, t_b, pg_b = pending, deadline, t_tick, list(pings)
-                for k in sorted((k for k in kinds if k != "arr"), key=lambda k: 0 if k == "dead" else 1):
-                    if k == "dead":
-                        finish(pg_b, d_b)
+                # the arrival may be processed before the timers of that instant (what one event-loop turn does), after
+                # them, or between them (a timer that was already collected when a blocking callback ran, the next one not
+                # yet): timers keep the order in which they were due
+                for pos in range(len(timers) + 1):
+                    p_b, d_b, t_b, pg_b = pending, deadline, t_tick, list(pings)
+                    ended = False
+                    for c in timers[:pos]:
+                        if c[0] == "dead":
+                            finish(pg_b, c[1])
+                            ended = True
+                            break
+                        if p_b:
+                            pg_b.append(c[1])
+                            if not consistent(pg_b):
+                                ended = True
+                                break
+                            if d_b is None:
+                                d_b = c[1] + RATIO * K
+                        p_b = True
+                        t_b = c[1] + K
+                    if not ended:
+                        run(i + 1, t_b, False, None, pg_b)
+                    if obs_pings is not None and found:
                         return
-                    if p_b:
-                        pg_b.append(t_b)
-                        if not consistent(pg_b):
-                            return
-                        if d_b is None:
-                            d_b = t_b + RATIO * K
-                    p_b = True
-                    t_b = t_b + K
-                i, t_tick, pending, deadline, pings = i + 1, t_b, False, None, pg_b
-                continue
-            kind = kinds[0] if len(kinds) == 1 else ("dead" if "dead" in kinds else "tick")
-            if kind == "arr":
+                return
+            first = timers[0] if timers else None
+            if first is None:
                 i += 1
                 pending = False
                 deadline = None
-            elif kind == "dead":
-                finish(pings, deadline)
+            elif first[0] == "dead":
+                finish(pings, first[1])
                 return
             else:
                 if pending:
-                    pings = pings + [t_tick]
+                    pings = pings + [first[1]]
                     if not consistent(pings):
                         return
                     if deadline is None:
-                        deadline = t_tick + RATIO * K
+                        deadline = first[1] + RATIO * K
                 pending = True
-                t_tick = t_tick + K
+                t_tick = first[1] + K
 
     run(0, T0 + K, True, None, [])
     if obs_pings is not None:
@@ -162,8 +186,23 @@ def keepalive_oracle(ix: Index, scn: dict) -> list[Violation]:
     # safety half (also under stalls): never dropped within 4.5K of an available message
     if close_cls == "PingFailedAPIError" and last_avail is not None and close_obs - last_avail < RATIO * K - tol:
         out.append(Violation("dropped-while-alive", "", f"PingFailed at t={close_obs:.6f} although a message was available at t={last_avail:.6f}, only {close_obs - last_avail:.6f}s (< 4.5K={RATIO * K}) earlier"))
+    if scn.get("stall_covers_deadline") and stalls and len(ix.stalls) == 1 and not arrivals:
+        # a totally silent peer and one blocking callback that spans the pong deadline: the deadline timer is overdue when the
+        # loop runs again, so the peer is declared dead right then - not an interval later
+        sq, dd = ix.stalls[0]
+        ev = next(e for e in ix.h if e[0] == sq)
+        s_end = ev[2] + dd
+        first_ping = min(pings_obs) if pings_obs else None
+        if first_ping is not None and ev[2] < first_ping + RATIO * K < s_end:
+            if close_cls != "PingFailedAPIError" or abs(close_obs - s_end) > tol:
+                out.append(Violation("drop-time", "late-after-stall", f"silent peer, first ping at {first_ping:.6f}, pong deadline {first_ping + RATIO * K:.6f} inside the blocked interval ({ev[2]:.6f}, {s_end:.6f}]: want PingFailed at {s_end:.6f}, got {close_cls} at {close_obs}"))
     if stalls:
-        return out
+        return out  # (otherwise only the safety half is judged under stalls: the reference model has no blocked intervals)
+    stall_windows = []
+    for sq, dd in ix.stalls:
+        ev = next((e for e in ix.h if e[0] == sq), None)
+        if ev is not None:
+            stall_windows.append((ev[2] - dd, ev[2]) if ev[4].get("at") == "end" else (ev[2], ev[2] + dd))
     horizon = end_t - 1e-6
     armed = next((ev for ev in ix.h if ev[3] == "write_raises_armed"), None)
     if armed is not None:
@@ -191,7 +230,7 @@ def keepalive_oracle(ix: Index, scn: dict) -> list[Violation]:
             arrivals = [a for a in arrivals if a < horizon]
             close_obs, close_cls = None, None
     close_for_model = close_obs if close_cls == "PingFailedAPIError" else None
-    outcomes = model(T0, K, arrivals, horizon, tol, pings_obs, close_for_model)
+    outcomes = model(T0, K, arrivals, horizon, tol, pings_obs, close_for_model, stalls=stall_windows)
     ok = False
     for pings_m, close_m in outcomes:
         if len(pings_m) != len(pings_obs) or any(abs(a - b) > tol + 1e-9 for a, b in zip(pings_m, pings_obs)):
@@ -221,7 +260,7 @@ def keepalive_oracle(ix: Index, scn: dict) -> list[Violation]:
             out.append(Violation("drop-flag", "", f"ping failure must be reported as an unexpected stop, on_stop calls: {st}"))
         if arrivals:
             gap = close_obs - arrivals[-1]
-            if not (5.5 * K - tol < gap <= 6.5 * K + tol) and not any(abs(a - (T0 + n * K)) < tol for a in arrivals[-1:] for n in range(0, 2000)):
+            if not stall_windows and not (5.5 * K - tol < gap <= 6.5 * K + tol) and not any(abs(a - (T0 + n * K)) < tol for a in arrivals[-1:] for n in range(0, 2000)):
                 out.append(Violation("window", "", f"peer fell silent at {arrivals[-1]:.6f}, dropped {gap:.6f}s later; want (5.5K, 6.5K] = ({5.5 * K}, {6.5 * K}]"))
     return out
 
@@ -238,6 +277,7 @@ def gen_c10(rng: random.Random, stalls: bool = False) -> dict:
         device["replies"] = {"PingRequest": ["silent"]}
     elif rng.random() < 0.3:
         device["replies"] = {"PingRequest": [{"msgs": [["PingResponse", {}]], "delay": K * pick(rng, [0.5, 2.0, 4.4, 4.6])}]}
+    stall_family = False
     g = K / 20.0
     N = rng.randint(10, 40)
     times: list[float] = []
@@ -263,7 +303,15 @@ def gen_c10(rng: random.Random, stalls: bool = False) -> dict:
     for x in times:
         events.append({"at": {"on": "state", "match": {"new": "CONNECTED"}, "delay": x}, "do": "dev", "act": {"msgs": [pick(rng, MSGS)], "latency": 0.0}})
     end = (times[-1] if times else 0.0) + 14 * K + 5.0
-    if stalls:
+    if stalls and rng.random() < 0.25:
+        # one blocking callback that spans the pong deadline of a totally silent peer
+        device["replies"] = {"PingRequest": ["silent"]}
+        events[:] = [e for e in events if e.get("do") != "dev"]
+        s0 = K * (1.0 + RATIO) - K * pick(rng, [0.1, 0.5, 2.0])
+        events.append({"at": {"on": "state", "match": {"new": "CONNECTED"}, "delay": s0}, "do": "fault", "kind": "stall", "d": K * pick(rng, [0.3, 0.7, 1.5, 3.0]) + (K * (1.0 + RATIO) - s0), "phase": "pre"})
+        end = 14 * K + 5.0
+        stall_family = True
+    elif stalls:
         for _ in range(rng.randint(1, 4)):
             events.append({"at": {"on": "state", "match": {"new": "CONNECTED"}, "delay": rng.random() * N * K}, "do": "fault", "kind": "stall", "d": K * pick(rng, [0.5, 2.0, 5.0, 9.0]), "phase": "pre"})
     if not stalls and rng.random() < 0.1:
@@ -311,6 +359,8 @@ def gen_c10(rng: random.Random, stalls: bool = False) -> dict:
         events.append({"at": {"on": "state", "match": {"new": "CONNECTED"}, "delay": t_cut}, "do": "dev", "act": {"raw_hex": part, "latency": 0.0}})
         end = t_cut + 14 * K + 5.0
     extra: dict = {}
+    if stall_family:
+        extra["stall_covers_deadline"] = True
     if not stalls and rng.random() < 0.08:
         # a caller gives up on a graceful disconnect the peer never answers (wait_for / cancel): the session it could not
         # end is still established and its keepalive goes on as if nothing had been asked
